@@ -60,6 +60,14 @@ def handle (args : List String) : String :=
       | some t, some v => if t.consistent then renderOr bitsToString (enc t v) else "inconsistent-descriptor"
       | _, _ => "bad-op"
     | _ => "bad-op"
+  | ["charset", cs, lo, hi] =>
+    match charsetOf cs, parseNat lo, parseNat hi with
+    | some cs, some lo, some hi =>
+      "ok " ++ String.ofList ((List.range (hi - lo)).map fun i =>
+        let cp := lo + i
+        if 0xD800 ≤ cp ∧ cp < 0xE000 ∨ cp ≥ 0x110000 then 'x'
+        else if cs.isValid cp then '1' else '0')
+    | _, _, _ => "bad-op"
   | "desccheck" :: _ :: r =>
     match rest r with
     | some [t] =>
